@@ -3,7 +3,7 @@
 META = dict(
     engine="E-CRYPTO",
     technique="Lean 4 proof of pocket-core's composition logic over abstract signature primitives (multisig = exact count + positional verification; length dispatch and go-amino key encodings round-trip incl. nested multisig; address stability) + differential correspondence vs the real crypto package with the primitive verdicts supplied as an oracle table + mutation testing of the primitives",
-    level_text="Kernel-checked for all key lists, messages and signature lists: PublicKeyMultiSignature.VerifyBytes accepts iff same count and every position verifies under the member key at that position (order matters, subsets/duplicates rejected, genuine signatures accepted); NewPublicKeyBz(RawBytes k)=k and PubKeyFromBytes(Bytes k)=k for every well-formed key of every kind (nested multisig included; a multisig encoding is never 32/33 bytes); addresses stable for any hash; MultiSignature round-trips; AddSignatureByIndex is correct in index order and provably misplaces out of order (counterexample theorem + theorem for the repaired loop). The real code is run on generated keys/messages/mutations every run and compared with the model; the multisig composition is evaluated by the Lean driver from the real member verdicts.",
+    level_text="Kernel-checked for all key lists, messages and signature lists: PublicKeyMultiSignature.VerifyBytes accepts iff same count and every position verifies under the member key at that position (order matters, subsets/duplicates rejected, genuine signatures accepted); NewPublicKeyBz(RawBytes k)=k and PubKeyFromBytes(Bytes k)=k for every well-formed key of every kind (nested multisig included; a multisig encoding is never 32/33 bytes); addresses stable for any hash; MultiSignature round-trips; AddSignatureByIndex puts a signature at its index for every list and index, and a multisig assembled by the members in ANY signing order verifies iff every member's signature verifies (assemble_any_order, assembled_multisig_verifies_iff). The real code is run on generated keys/messages/mutations every run and compared with the model; the multisig composition is evaluated by the Lean driver from the real member verdicts.",
     level_note="PARTIAL by nature: ed25519/secp256k1 are parameters (structure SigScheme with the correctness law as a field). The 'only if produced by the matching private key' direction is a computational unforgeability statement and is NOT proved; it is covered only by mutation testing (single-byte message/signature/key mutations, foreign signatures, truncations must be rejected by the real primitives). go-amino is modelled by hand for the three key types and MultiSignature (tied differentially, including malformed encodings). Trusted: Lean kernel; axioms propext, Classical.choice, Quot.sound; Go harness and driver parser.",
 )
 
